@@ -57,7 +57,8 @@ def extract(repo, o):
     o.defn("VCF_FORMAT_LOSS", "List String", "[" + ", ".join(lstr(x) for x in loss["format"].split(":")) + "]",
            "segments2vcf: FORMAT keys of a loss record")
     aug = [n for n in ast.walk(fn) if isinstance(n, ast.AugAssign) and isinstance(n.op, ast.Mult)
-           and isinstance(n.target, ast.Subscript) and isinstance(n.target.value, ast.Name) and n.target.value.id == "svlen"]
+           and isinstance(n.target, ast.Subscript) and isinstance(n.target.value, ast.Name)]
+    # (whatever the local is called: the only masked `*=` of the function is the sign flip of the losses' length)
     if len(aug) > 1:
         raise ValueError("segments2vcf: more than one `svlen[idx_losses] *= c`")
     # no such statement is the same as multiplying by 1
